@@ -203,14 +203,26 @@ func FlagAccessOf(in ssa.Instruction) (FlagAccess, bool) {
 // receiver (mutex operations around the read are allowed): an accessor.
 // Returns the receiver's struct type name and the field name.
 func FieldGetter(f *ssa.Function) (typ, field string, ok bool) {
-	if f == nil || len(f.Blocks) == 0 || len(f.Params) != 1 || f.Signature.Results().Len() != 1 || !onlyLockCalls(f) {
+	if f == nil || f.Signature.Results().Len() != 1 {
+		return "", "", false
+	}
+	return FieldGetterK(f, 0)
+}
+
+// FieldGetterK: result k of accessor f is field F of its receiver (the other
+// results, if any, are other fields read in the same critical section).
+func FieldGetterK(f *ssa.Function, k int) (typ, field string, ok bool) {
+	if f == nil || len(f.Blocks) == 0 || len(f.Params) != 1 || f.Signature.Results().Len() <= k || !onlyLockCalls(f) {
 		return "", "", false
 	}
 	n := 0
 	for _, ret := range Returns(f) {
 		n++
 		res := ReturnResults(ret)
-		ld, isLd := Strip(res[0]).(*ssa.UnOp)
+		if len(res) <= k {
+			return "", "", false
+		}
+		ld, isLd := Strip(res[k]).(*ssa.UnOp)
 		if !isLd || ld.Op != token.MUL {
 			return "", "", false
 		}
